@@ -260,6 +260,8 @@ SpansOk(t, offs, s, m, parent) ==
         /\ m.sp[1] = m.v[1].sp[1] /\ m.sp[2] = m.v[Len(m.v)].sp[2]
   \* a table with a header of its own, or an element of an array of tables: its slice is a piece of document that
   \* starts with that header (complete: "[empty" without its bracket is not)
+  \* (such a table always has a span when read from text - also a super-table whose header follows its sub-table)
+  /\ (s.k = "t" /\ s.def \in {"header", "elem"} /\ parent # <<0 - 1>>) => m.sp # <<>>
   /\ (s.k = "t" /\ s.def \in {"header", "elem"} /\ m.sp # <<>>) =>
         LET st == Statements(Slice(t, m.sp, offs)) IN
         st.ok /\ Len(st.stmts) >= 1 /\ st.stmts[1].kind = (IF s.def = "elem" THEN "aot" ELSE "std")
@@ -439,7 +441,7 @@ ObsOf(kind, s) == IF IsSeqK(kind) THEN SeqObs(s) ELSE MapObs(s, HKeys)
 SameObs(kind, a, b) ==
   /\ a.len = b.len /\ a.empty = b.empty /\ a.iter = b.iter
   \* b = recorded; placeholders never show up in the printed output (what else is printed is C06's matter)
-  /\ IsSeqK(kind) \/ (a.get = b.get /\ a.has = b.has /\ b.owned = a.iter /\ b.iter_mut = a.iter /\ \A x \in 1..Len(b.printed) : \E y \in 1..Len(a.printed) : a.printed[y] = b.printed[x])
+  /\ IsSeqK(kind) \/ (a.get = b.get /\ a.has = b.has /\ b.owned = a.iter /\ b.iter_mut = a.iter /\ b.rev = [x \in 1..Len(a.iter) |-> a.iter[Len(a.iter) + 1 - x]] /\ \A x \in 1..Len(b.printed) : \E y \in 1..Len(a.printed) : a.printed[y] = b.printed[x])
 RECURSIVE HistSim(_, _, _, _)
 HistSim(kind, states, ops, j) ==
   IF j > Len(ops) THEN 0
